@@ -96,10 +96,10 @@ SHUF_INV = ["Total", "AcceptImpliesPerm", "Refines", "HonestAccepted", "Families
 OUT_F = ["replaceX", "replaceY", "replace", "rerand", "scal", "dup", "sum", "swapXY", "swapX"]
 PRF_F = ["none", "mutate", "trunc", "splice", "param", "input"]
 SHUF_FAMS = {
-    "pair": OUT_F + PRF_F + ["honestlib", "detach", "kshift"],
-    "seq": OUT_F + PRF_F + ["seqperm", "kshift"],
-    "biffle": OUT_F + PRF_F + ["comptamper"],
-    "simple": ["none", "replace", "scal", "dup", "sum", "mutate", "trunc", "splice", "param"],
+    "pair": OUT_F + PRF_F + ["honestlib", "detach", "kshift", "eqviol", "reprove"],
+    "seq": OUT_F + PRF_F + ["seqperm", "kshift", "eqviol", "reprove"],
+    "biffle": OUT_F + PRF_F + ["comptamper", "simboth", "reprove"],
+    "simple": ["none", "replace", "scal", "dup", "sum", "mutate", "trunc", "splice", "param", "eqviol", "reprove"],
 }
 
 
@@ -158,9 +158,9 @@ def c15(ctx):
 SIG_INV = ["Total", "AcceptIffClean", "OtherBranchesIrrelevant", "FalsLocal", "FaultNeverAccepted", "ItemCount", "CommitFirst", "Shape"]
 
 
-def sig_consts(mode, br, rep, term, ns, nb, terms, wraps=("min", "full"), faults=(0,)):
+def sig_consts(mode, br, rep, term, ns, nb, terms, wraps=("min", "full"), faults=(0,), names=(20,)):
     return {"MaxBr": br, "MaxRep": rep, "MaxTerm": term, "NS": ns, "NB": nb, "MaxTerms": terms, "Mode": mode, "Wraps": list(wraps),
-            "Faults": list(faults)}
+            "Faults": list(faults), "NameLens": list(names)}
 
 
 SIGTRACE_CFG = """SPECIFICATION TraceSpec
@@ -174,6 +174,7 @@ CONSTANTS
   Mode = "sat"
   Wraps = {"min"}
   Faults = {0}
+  NameLens = {20}
 CONSTRAINT Mark
 POSTCONDITION TraceAccepted
 CHECK_DEADLOCK FALSE
@@ -204,6 +205,10 @@ def c14(ctx):
     # not completely verified is never reported as accepted
     jobs.append(lambda: gen(ctx, "Sigma", sig_consts("sat", 2, 2, 2, 2, 2, 3 if q else 4, mini, faults=(1, 2, 3)), "C14_fault",
                             invariants=SIG_INV + ["Emit"], workers=W))
+    # protocol names of length 0, 1, 63, 64, 65, 200 x the verifier's name differing in the last byte / in byte 65 / being a
+    # proper prefix / an extension: rejected whenever the names differ (and accepted under the same name)
+    jobs.append(lambda: gen(ctx, "Sigma", sig_consts("name", 2, 2, 2, 2, 2, 2 if q else 3, mini, names=(0, 1, 63, 64, 65, 200)), "C14_names",
+                            invariants=SIG_INV + ["Emit"], workers=W))
     if not q:   # trivial Or / And nodes kept ("full" wrapping) on the smaller universes
         jobs += [ex("sat", 5, both, "C14_sat_wraps"), ex("mut", 4, both, "C14_mut_wraps")]
     outs = par(ctx, jobs)
@@ -214,7 +219,8 @@ def c14(ctx):
     ctx.run_vh("sigma", ["-in", outs[2], "-max", 800 if q else 12000, "-deniable", 2, "-trace", tr2, "-tracemax", 60 if q else 600], binary=b)
     ctx.run_vh("sigma", ["-in", outs[3], "-max", 800 if q else 12000, "-deniable", 2], binary=b)
     ctx.run_vh("sigma", ["-in", outs[4], "-max", 1500 if q else 8000, "-deniable", 1], binary=b)
-    for bh in outs[5:]:
+    ctx.run_vh("sigma", ["-in", outs[5], "-deniable", 0], binary=b)
+    for bh in outs[6:]:
         ctx.run_vh("sigma", ["-in", bh, "-max", 12000, "-deniable", 3], binary=b)
     if ctx.cov["skipped"].get("deniable-session-timeout"):
         raise Broken("%d deniable clique sessions did not terminate within 5 minutes" % ctx.cov["skipped"]["deniable-session-timeout"])
@@ -247,7 +253,8 @@ def c14(ctx):
         "tree (variables and bases introduced in increasing order) up to 2 Or-branches x 2 And-terms x 2 terms per Rep over 2 scalar variables and "
         "2 bases (quick: <= 4 terms in total) x every branch choice x {nothing, prover's secret x_v wrong, public point of a Rep unrelated}; for trees "
         "with <= 3 (thorough 5) terms x {every transcript item altered, every truncation at an item boundary and one byte into / one byte short of "
-        "every item, an honest proof ending in 0x00 bytes cut by exactly those bytes, two no-knowledge forgers, other protocol name, verifier's base / "
+        "every item, an honest proof ending in 0x00 bytes cut by exactly those bytes, two no-knowledge forgers, protocol names of length 0/1/63/64/65/200 against a verifier name differing in the last byte / in byte 65 / "
+        "a proper prefix / an extension, verifier's base / "
         "point altered, verifier's predicate with another base / a term, And-term or branch dropped / a branch added / And-terms or branches "
         "exchanged}; shapes up to 4 x 4 x 3 over 4 variables and 4 bases by -simulate. Each case is replayed with proof.HashProve/HashVerify and (every "
         "2nd-4th case) with proof.DeniableProver among 2-3 participants over a harness clique context whose router alters participant 0's messages, "
